@@ -40,6 +40,7 @@ func init() {
 				ex.onAcquire(fr, st, args[0], pc)
 			} else {
 				ex.oblige("lock", "release "+ptrName(args[0]), pos, pc, Eq(lv.Held, BV(want, 8)), "mutex is held in the released mode")
+				ex.lockRelease(st, args[0])
 			}
 			ex.store(st, args[0], LockV{BV(set, 8)}, pc, pos)
 			return callResult{val: TupleV{}, st: st}
